@@ -20,7 +20,7 @@ from concurrent.futures import ThreadPoolExecutor
 from pathlib import Path
 
 from sa.model import repo_root
-from selftest import mutants
+from selftest import mutants, neutral
 
 VERIF = Path(__file__).resolve().parent.parent
 
@@ -68,6 +68,17 @@ def _mutant_variant(base: Path, i: int, mu: mutants.Mutant, prop: str) -> dict:
     return {"variant": f"gen{i}", "kind": "generated", "function": mu.function, "op": mu.op, "detail": mu.detail, "exit": rc, "rules": rules}
 
 
+def _neutral_variant(base: Path, i: int, nv, prop: str) -> dict:
+    d = base / f"neu{i}"
+    _copy_src(d)
+    path = d / "src" / Path(*nv.module.split("."))
+    path = path.with_suffix(".py") if path.with_suffix(".py").exists() else path / "__init__.py"
+    path.write_text(nv.source)
+    rc, rules = _run_check(prop, d)
+    shutil.rmtree(d, ignore_errors=True)
+    return {"variant": f"neu{i}", "kind": "neutral", "function": nv.function, "op": nv.op, "detail": nv.detail, "exit": rc, "rules": rules}
+
+
 def run_selftest(prop: str, rep) -> int:
     base = _scratch_base()
     seed = int(os.environ.get("VERIF_SEED", "0") or 0)
@@ -91,10 +102,12 @@ def run_selftest(prop: str, rep) -> int:
                     modules[".".join(parts[:k])] = f.read_text()
                     break
         gen = mutants.generate(prop, modules, limit=int(os.environ.get("VERIF_MUTANTS", "48")), seed=seed)
+        neu = neutral.generate(prop, modules, limit=int(os.environ.get("VERIF_NEUTRALS", "36")), seed=seed)
         results = []
         with ThreadPoolExecutor(max_workers=min(16, os.cpu_count() or 4)) as ex:
             futs = [ex.submit(_patch_variant, base, name, patch, rev, prop) for _, name, patch, rev in jobs]
             futs += [ex.submit(_mutant_variant, base, i, mu, prop) for i, mu in enumerate(gen)]
+            futs += [ex.submit(_neutral_variant, base, i, nv, prop) for i, nv in enumerate(neu)]
             for f in futs:
                 results.append(f.result())
     finally:
@@ -106,18 +119,29 @@ def run_selftest(prop: str, rep) -> int:
     killed = [x for x in generated if x["exit"] == 1]
     errors = [x for x in generated if x["exit"] == 2]
     survivors = [x for x in generated if x["exit"] == 0]
+    neutrals = [x for x in results if x["kind"] == "neutral"]
+    false_alarms = [x for x in neutrals if x["exit"] == 1]
+    stopped = [x for x in neutrals if x["exit"] == 2]
     rep.extra["selftest"] = {
         "curated_variants": len(curated), "curated_applied": len(usable), "curated_detected": len(usable) - len(missed),
         "curated": [{k: x.get(k) for k in ("variant", "kind", "applied", "exit", "rules")} for x in curated],
         "generated_mutants": len(generated), "generated_killed": len(killed), "generated_analysis_error": len(errors),
         "generated_survivors": [{k: x[k] for k in ("function", "op", "detail")} for x in survivors][:40],
         "note": "generated single-edit mutants may be behaviour preserving; survivors are listed, not counted as failures",
+        "neutral_variants": len(neutrals), "neutral_silent": len(neutrals) - len(false_alarms) - len(stopped),
+        "neutral_false_alarms": [{k: x[k] for k in ("function", "op", "detail", "rules")} for x in false_alarms],
+        "neutral_analysis_stopped": [{k: x[k] for k in ("function", "op", "detail")} for x in stopped],
     }
     rep.tier = "thorough"
     rep._write_evidence(0, sum(1 for v in rep.violations if True) and 0)
     print(f"{prop} [thorough] selftest: curated {len(usable) - len(missed)}/{len(usable)} detected "
           f"({len(curated) - len(usable)} not applicable to this tree); generated mutants killed {len(killed)}/{len(generated)}, "
-          f"{len(errors)} stopped the analysis (fail-closed), {len(survivors)} survived")
+          f"{len(errors)} stopped the analysis (fail-closed), {len(survivors)} survived; behaviour-preserving variants silent "
+          f"{len(neutrals) - len(false_alarms) - len(stopped)}/{len(neutrals)} ({len(false_alarms)} false alarms, {len(stopped)} stopped the analysis)")
+    for x in false_alarms:
+        print(f"ANALYSIS-ERROR property={prop}: false alarm on behaviour-preserving variant {x['op']} in {x['function']} ({x['detail']}): {x['rules']}")
+    if false_alarms:
+        return 2
     if missed:
         for x in missed:
             print(f"ANALYSIS-ERROR property={prop}: self-test variant {x['variant']} ({x['kind']}) is no longer reported (exit {x.get('exit')})")
